@@ -237,6 +237,16 @@ def run(ctx, case):
             kk = k1 if bool(S >= tr.SD) else k2
             exp = _lg(tr.ND) - kk * (_lg(S) - _lg(tr.SD))
             ctx.claim(abs(_lg(_scalar(N)) - exp) <= TOLE * (1 + abs(exp)), "slopes", (N, exp))
+        # one accessor object asked repeatedly (other load and other probability in between) answers as the first time
+        acc = wc_s.woehler
+        first = acc.cycles(S, p)
+        acc.cycles(S * 2, 0.5)
+        acc.load(Nc, 0.5)
+        again = acc.cycles(S, p)
+        if _isinf(first) or _isinf(again):
+            ctx.claim(_isinf(first) and _isinf(again) and _isinf(N), "load(cycles(S))~S", "repeated question to the same accessor")
+        else:
+            ctx.claim(sym_and(_close_log(ctx, again, first), _close_log(ctx, first, N)), "load(cycles(S))~S", ("repeated question to the same accessor", first, again))
         out["N"] = _scalar(N)
         out["N2"] = _scalar(N2)
         out["L"] = _scalar(L)
